@@ -11,6 +11,8 @@
 (*        ACK the step delivered, counted as lost, space/0-RTT discarded)  *)
 (*   Recovery!Track gate  non-exempt ack-eliciting packets fit the window  *)
 (*   NoSpuriousLoss  nothing is declared lost on a clean path              *)
+(*   SentFasterThanConfiguredRate  with a configured maximum sending rate   *)
+(*        the paced datagrams fit a token bucket of that rate               *)
 (*   AckElicitingPacketNotTracked  every packet the wire decoder finds     *)
 (*        ack-eliciting is outstanding afterwards, as ack-eliciting and    *)
 (*        with its size                                                    *)
@@ -20,15 +22,16 @@ EXTENDS Naturals, Integers, Sequences, FiniteSets, TLC, Json, IOUtils
 Rec == ndJsonDeserialize(IOEnv.TRACE)
 N == Len(Rec)
 
-VARIABLES l, bad, clean, deviations, cur
-vars == <<l, bad, clean, deviations, cur>>
+VARIABLES l, bad, clean, deviations, tok, tokT, cur
+vars == <<l, bad, clean, deviations, tok, tokT, cur>>
 
 e == Rec[l]
 Is(k) == l <= N /\ e.ev = k
 Flag(c, name) == IF c THEN {} ELSE {name}
 
-TInit == l = 1 /\ bad = {} /\ clean = FALSE /\ deviations = {} /\ cur = <<0, 0, 0>>
-Reset == /\ Is("Reset") /\ bad' = {} /\ deviations' = {} /\ clean' = e.clean /\ cur' = <<e.run, e.n, e.c>> /\ l' = l + 1
+TInit == l = 1 /\ bad = {} /\ clean = FALSE /\ deviations = {} /\ tok = -1 /\ tokT = 0 /\ cur = <<0, 0, 0>>
+Reset == /\ Is("Reset") /\ bad' = {} /\ deviations' = {} /\ clean' = e.clean /\ tok' = -1 /\ tokT' = 0
+         /\ cur' = <<e.run, e.n, e.c>> /\ l' = l + 1
 
 Covered(p) == \E i \in DOMAIN e.acked : e.acked[i].sp = p.sp /\ e.acked[i].lo <= p.pn /\ p.pn <= e.acked[i].hi
 Discarded(p) == \E i \in DOMAIN e.disc : e.disc[i] = p.sp
@@ -53,12 +56,40 @@ Gate(dg, k, running, probesLeft) ==
                         IF isProbe THEN [probesLeft EXCEPT ![d.sp + 1] = @ - 1] ELSE probesLeft)
        IN <<(free \/ fits \/ d.behind) /\ rest[1], (~free /\ ~fits /\ d.behind) \/ rest[2]>>
 
+\* Pacing with a configured sending rate R (TransportConfig::max_bytes_per_second): the paced datagrams
+\* of a connection - the ones the congestion gate applies to - fit a token bucket that refills at R
+\* bytes per second and holds at most twice max(R * 8 ms, one datagram) (the pacer's capacity is at most 10 ms
+\* of a window that is itself limited to R * rtt / 1.25, refilled at 1.25 windows per rtt), two datagrams
+\* of slack.  The implementation's bucket is never larger and never refills faster, so it cannot
+\* overdraw this one.  A new path starts with a full bucket.  tok = -1: full.
+\* (the implementation tops its bucket up only when it runs dry, with credit for all the time since the
+\* last top-up: in one instant it can spend what was left plus a full bucket - twice the capacity)
+Cap(rate, mtu) == 2 * (IF (rate \div 1000) * 8 > mtu THEN (rate \div 1000) * 8 ELSE mtu) + 2 * mtu
+Refill(t0, t1, rate, mtu, tk) ==
+  LET c == Cap(rate, mtu) dt == t1 - t0 IN
+  IF tk = -1 \/ dt >= 1000000 THEN c
+  \* (32-bit arithmetic: the elapsed time in units of 100 us, rounded up)
+  ELSE LET x == tk + ((rate \div 1000) * (dt \div 100 + 1)) \div 10 + 1 IN IF x > c THEN c ELSE x
+RECURSIVE Rate(_, _, _, _)
+Rate(dg, k, tk, probesLeft) ==
+  IF k > Len(dg) THEN <<TRUE, tk>>
+  ELSE LET d == dg[k]
+           isProbe == d.sp >= 0 /\ probesLeft[d.sp + 1] > 0
+           free == d.exempt \/ isProbe \/ ~d.ae
+           rest == Rate(dg, k + 1, IF free THEN tk ELSE (IF tk >= d.size THEN tk - d.size ELSE 0),
+                        IF isProbe THEN [probesLeft EXCEPT ![d.sp + 1] = @ - 1] ELSE probesLeft)
+       IN <<(free \/ tk >= d.size) /\ rest[1], rest[2]>>
+
 Step ==
   /\ Is("Step")
   /\ LET unexplained == {i \in DOMAIN e.left : ~Covered(e.left[i]) /\ ~Discarded(e.left[i])}
          zeroRttGone == e.zchg \/ e.retry
          gate == IF e.kind = "Tx" THEN Gate(e.dgl, 1, e.pre_ifb, e.lp) ELSE <<TRUE, FALSE>>
+         paced == e.kind = "Tx" /\ e.rate > 0
+         full == Refill(tokT, e.t, e.rate, e.mtu, IF e.pathchg THEN -1 ELSE tok)
+         rt == IF paced THEN Rate(e.dgl, 1, full, e.lp) ELSE <<TRUE, tok>>
      IN
+     /\ tok' = (IF e.pathchg THEN -1 ELSE rt[2]) /\ tokT' = (IF paced THEN e.t ELSE tokT)
      /\ deviations' = IF gate[2] THEN deviations \cup {"CoalescedBehindAckOnlyBypassesCwnd"} ELSE deviations
      /\ bad' = bad
           \* bytes in flight / ack-eliciting in flight balance for the current and the previous path
@@ -70,6 +101,7 @@ Step ==
           \cup Flag(zeroRttGone \/ Cardinality(unexplained) <= e.dlost, "PacketVanishedWithoutFate")
           \cup Flag(e.kind \in {"Rx", "Timeout", "Tx"} \/ Len(e.left) = 0, "PacketLeftDuringApplicationCall")
           \cup Flag(gate[1], "SentBeyondCongestionWindow")
+          \cup Flag(rt[1], "SentFasterThanConfiguredRate")
           \* what the independent decoder finds ack-eliciting on the wire is held as outstanding,
           \* ack-eliciting, with its size (the window check rests on these records)
           \* (a space discarded in the same step takes its last packet with it)
